@@ -93,6 +93,21 @@ def takeChain : Nat → List (LStream α) → List (Ev α) × List α
       (e ++ e', v ++ v')
     else (e, v)
 
+/-- `(x for x in upstream for _ in range(k(x)))` - the stage of `sample` / `sampleByKey`: every upstream element is pulled
+(its calls happen) and is emitted as often as the sampler drew for it, possibly never; the sampler is library code and logs
+nothing. `draws` are the numbers the seeded generator yields, in element order (none left: 0). -/
+def lsampleAux : List Nat → List (Cell α) → List (Ev α) → List (Ev α) → LStream α
+  | _, [], pending, trailing => ⟨[], pending ++ trailing⟩
+  | ds, c :: cs, pending, trailing =>
+    let evs := pending ++ c.events
+    match ds.headD 0 with
+    | 0 => lsampleAux ds.tail cs evs trailing
+    | n + 1 =>
+      let rest := lsampleAux ds.tail cs [] trailing
+      ⟨⟨evs, c.value⟩ :: (List.replicate n ⟨[], c.value⟩) ++ rest.cells, rest.trailing⟩
+
+def lsample (draws : List Nat) (s : LStream α) : LStream α := lsampleAux draws s.cells [] s.trailing
+
 /-! ### the two `itertools` primitives `take` / `first` are written with, as stream transformers (used by the regenerated
 fragment `Extracted/GenC06.lean`; `Extracted/EquivC06.lean` proves that their composition is `takeChain`) -/
 
